@@ -117,7 +117,7 @@ PINNED = {
 }
 PINNED_HASHES = {
     # from the audited tree (sqlparse 0.5.4.dev0); regenerate with `python gen_sites.py --pins` after a re-audit
-    'sqlparse/sql.py:Token.__init__': '663cd8252c045d9b',
+    'sqlparse/sql.py:Token.__init__': 'fc5b934291c84c10',
     'sqlparse/sql.py:Token.__str__': 'ac8e126c90fa2829',
     'sqlparse/sql.py:Token.flatten': '5e4946a55825e510',
     'sqlparse/sql.py:Token.match': 'b2f242c60b029c50',
